@@ -143,6 +143,9 @@ func init() {
 			{Name: "C12_step_canary", Role: "canary",
 				Quick:    []Params{{"M": 5, "P": 2, "amode": 0, "bmode": 0, "pc": 1, "k": 2}},
 				Thorough: []Params{{"M": 5, "P": 2, "amode": 0, "bmode": 0, "pc": 1, "k": 2}}},
+			{Name: "C12_spawn", Expect: []string{"end", "rotated-core-equal"}, Witnesses: 4,
+				Quick:    grid([]string{"M", "P", "len", "concrete"}, []int{3, 5}, []int{1}, []int{1, 3}, []int{1}),
+				Thorough: grid([]string{"M", "P", "len", "concrete"}, []int{3, 4, 5, 8}, []int{1, 2}, []int{1, 2, 3}, []int{1})},
 			{Name: "C12_spawn", Expect: []string{"end", "rotated-core-equal"},
 				Quick:    grid([]string{"M", "P", "len"}, []int{3, 5, 8}, []int{1, 2}, []int{1, 3}),
 				Thorough: grid([]string{"M", "P", "len"}, []int{3, 4, 5, 8, 13, 16}, []int{1, 2, 3}, []int{1, 2, 3})},
@@ -291,8 +294,8 @@ func init() {
 		ID: "C08", UsesEvalModel: true,
 		Harnesses: []HarnessSpec{
 			{Name: "C08_family", Expect: []string{"end", "for-equals-unrolled"}, Witnesses: 8,
-				Quick:    grid([]string{"maxCount", "nested", "second"}, []int{2}, []int{0, 1}, []int{0, 1}),
-				Thorough: grid([]string{"maxCount", "nested", "second"}, []int{3}, []int{0, 1}, []int{0, 1})},
+				Quick:    append(grid([]string{"maxCount", "nested", "second"}, []int{2}, []int{0, 1}, []int{0, 1}), Params{"maxCount": 2, "nested": 2, "second": 0}),
+				Thorough: append(grid([]string{"maxCount", "nested", "second"}, []int{3}, []int{0, 1}, []int{0, 1}), Params{"maxCount": 2, "nested": 2, "second": 0}, Params{"maxCount": 2, "nested": 2, "second": 1})},
 			{Name: "C08_sequence", Expect: []string{"end"}, Witnesses: 1,
 				Quick:    grid([]string{"blocks"}, []int{1, 3, 12}),
 				Thorough: grid([]string{"blocks"}, []int{1, 3, 7, 12})},
@@ -309,8 +312,8 @@ func init() {
 		ID: "C14", UsesEvalModel: true,
 		Harnesses: []HarnessSpec{
 			{Name: "C14_copy", Expect: []string{"end", "simulator-keeps-its-own-copy"}, Witnesses: 4,
-				Quick:    grid([]string{"M", "len"}, []int{5, 8}, []int{1, 3}),
-				Thorough: grid([]string{"M", "len"}, []int{3, 5, 8, 13}, []int{1, 2, 3})},
+				Quick:    grid([]string{"M", "len", "capfactor"}, []int{5, 8}, []int{1, 3}, []int{1, 2, 4}),
+				Thorough: grid([]string{"M", "len", "capfactor"}, []int{3, 5, 8, 13}, []int{1, 2, 3}, []int{1, 2, 3, 4, 8})},
 			{Name: "C14_maporder", Expect: []string{"end", "result-independent-of-map-order"}, Witnesses: 2,
 				Quick:    grid([]string{"maporder", "entry"}, seq(0, 11), []int{1, 2}),
 				Thorough: grid([]string{"maporder", "entry"}, seq(0, 47), []int{0, 1, 2, 3})},
@@ -347,6 +350,9 @@ func init() {
 	Properties = append(Properties, &PropertySpec{
 		ID: "C09", UsesEvalModel: true,
 		Harnesses: []HarnessSpec{
+			{Name: "C09_names", Expect: []string{"end", "loader-name-roundtrip", "assembler-name-roundtrip"}, Witnesses: 4,
+				Quick:    grid([]string{"legacy"}, []int{0, 1}),
+				Thorough: grid([]string{"legacy"}, []int{0, 1})},
 			{Name: "C09_loader", Expect: []string{"end", "roundtrip-instruction"}, Witnesses: 4,
 				Quick:    append(grid([]string{"M", "legacy", "len", "op", "finalNL", "vary"}, []int{8000}, []int{0, 1}, []int{1}, []int{1, 0, 14}, []int{1}, []int{0}), grid([]string{"M", "legacy", "len", "op", "finalNL", "vary"}, []int{8000}, []int{0, 1}, []int{1, 2}, []int{1}, []int{0, 1}, []int{1})...),
 				Thorough: append(grid([]string{"M", "legacy", "len", "op", "finalNL", "vary"}, []int{8, 8000, 8192}, []int{0, 1}, []int{1}, []int{0, 1, 2, 3, 7, 10, 11, 12, 13, 14, 15}, []int{1}, []int{0}), grid([]string{"M", "legacy", "len", "op", "finalNL", "vary"}, []int{8, 8000, 8192}, []int{0, 1}, []int{1, 2, 3}, []int{1, 14}, []int{0, 1}, []int{1})...)},
